@@ -67,7 +67,7 @@ class WriterCounts(Contract):
 
     def rows_inv(self, env):
         fid = self._fid(env)
-        k = env[env.frame.loop_index_name]
+        k = env.it
         g = env.ctx.ghost
         return [('index-in-range', And(ge(k, 0), le(k, self.n))),
                 ('one row written per record so far', eq(g['data_rows'], k)),
@@ -76,7 +76,8 @@ class WriterCounts(Contract):
 
     @property
     def loops(self):
-        return {3: LoopSpec(inv=self.rows_inv, ghost_init=self.rows_ghost_init, ghost_step=self.rows_ghost_step)}
+        # the loop over the data rows (`for row in array(vals).T`), found by its iterable rather than by its position
+        return {'iter:.T': LoopSpec(inv=self.rows_inv, ghost_init=self.rows_ghost_init, ghost_step=self.rows_ghost_step)}
 
     def ensures(self, inp, res, I):
         from pyvc.exec import FmtStr
